@@ -296,6 +296,38 @@ def build():
         if own:
             r.append(E('member', '%s.bitset@.contains(%s.index)' % (s_, s_)))
         return r
+    # ---- the SHARED paired item (`(&mut s.restrict_mut()).join()` / `.par_join()`) and its raw-sharing handle. N3: SharedGetOnly holds
+    # `&'a mut S`; `get(this: &Self)` / `get_mut(this: &Self)` return references tied to the borrow of the handle; `shared_get_mut` is
+    # the kind's `get_mut`. `duplicate` (several handles to one storage, the reason for `unsafe`) is NOT modelled.
+    SO = ['mod shared_get_only']
+    u.struct(RS, SO + ['struct SharedGetOnly'], rules=[('N3', r"\(&'a S, PhantomData<T>\)", "(&'a mut S, PhantomData<T>)")])
+    SOI = "impl<'a, T, S> SharedGetOnly<'a, T, S>"
+    u.fn(RS, SO + [SOI, 'fn new'], ret='r', props='C13 C07', key='SharedGetOnly::new',
+         ensures=[E('same', '*r.0 == *old(storage) && *final(r.0) == *final(storage)')])
+    u.fn(RS, SO + [SOI, 'fn get'], ret='r', props='C13 C07', key='SharedGetOnly::get', impl_header="impl<'a, T, S: UnprotectedStorage<T>> SharedGetOnly<'a, T, S>",
+         rules=[('N3', r"unsafe fn get\(this: &Self, id: Index\) -> &'a T", "unsafe fn get<'next>(this: &'next Self, id: Index) -> &'next T"), ('N3', r'where\s+S: UnprotectedStorage<T>,', '')],
+         requires=[E('present', 'this.0.has(id)')],
+         ensures=[E('val', '*r == old(this.0).val(id)')])
+    u.fn(RS, SO + [SOI, 'fn get_mut'], ret='r', props='C13 C07 C12', key='SharedGetOnly::get_mut', impl_header="impl<'a, T, S: UnprotectedStorage<T>> SharedGetOnly<'a, T, S>",
+         rules=[('N3', r"this: &Self,", "this: &'next mut Self,"), ('N3', r'unsafe fn get_mut\(', "unsafe fn get_mut<'next>("),
+                ('N8', r"<S as UnprotectedStorage<T>>::AccessMut<'a>", "&'next mut T"), ('N3', r'where\s+S: SharedGetMutStorage<T>,', ''),
+                ('N3', r'this\.0\.shared_get_mut\(id\)', 'this.0.get_mut(id)')],
+         requires=[E('present', 'old(this).0.has(id)')],
+         ensures=[E('item', '*r == old(this).0.val(id) && final(this).0.val(id) == *final(r)'),
+                  E('only_own', '(forall|j: Index| #![trigger final(this).0.has(j)] final(this).0.has(j) == old(this).0.has(j)) && (forall|j: Index| #![trigger final(this).0.val(j)] j != id ==> final(this).0.val(j) == old(this).0.val(j))'),
+                  E('events', 'final(this).0.log() == old(this).0.log() + old(this).0.ev_get_mut(id)', 'C12 C13')])
+    u.struct(RS, ['struct PairedStorageWriteShared'])
+    PS = "impl<'rf, C> PairedStorageWriteShared<'rf, C>"
+    PSH = "impl<'rf, C> PairedStorageWriteShared<'rf, C> where C: Component,"
+    u.fn(RS, [PS, 'fn get'], ret='r', props='C13', key='PairedStorageWriteShared::get', impl_header=PSH,
+         requires=[E('member', 'self.storage.0.has(self.index)')],
+         ensures=[E('val', '*r == old(self.storage.0).val(self.index)')])
+    u.fn(RS, [PS, 'fn get_mut'], ret='r', props='C13 C12', key='PairedStorageWriteShared::get_mut', impl_header=PSH,
+         rules=C8 + [('N3', r'SharedGetOnly::get_mut\(&self\.storage,', 'SharedGetOnly::get_mut(&mut self.storage,')],
+         requires=[E('member', 'old(self).storage.0.has(old(self).index)')],
+         ensures=[E('val', '*r == old(self).storage.0.val(old(self).index)'),
+                  E('only_own', 'final(self).index == old(self).index && final(self).storage.0.val(old(self).index) == *final(r) && (forall|j: Index| #![trigger final(self).storage.0.has(j)] final(self).storage.0.has(j) == old(self).storage.0.has(j)) && (forall|j: Index| #![trigger final(self).storage.0.val(j)] j != old(self).index ==> final(self).storage.0.val(j) == old(self).storage.0.val(j))', 'C13'),
+                  E('events', 'final(self).storage.0.log() == old(self).storage.0.log() + old(self).storage.0.ev_get_mut(old(self).index)', 'C12 C13')])
     u.fn(RS, [PR, 'fn get'], ret='r', props='C13', key='PairedStorageRead::get', requires=preq('self'),
          ensures=[E('val', '*r == self.storage.val(self.index)')])
     u.fn(RS, [PR, 'fn get_other'], ret='r', props='C03 C13', key='PairedStorageRead::get_other', requires=preq('self', False),
